@@ -32,6 +32,7 @@ INVARIANT JoinOnlyWhenDone
 INVARIANT StopJoinsAll
 INVARIANT EndsOnlyWhenStopped
 INVARIANT CrashOnlyOnError
+INVARIANT NodeStatsSurvivesTransportError
 INVARIANT SamplesStored
 INVARIANT BaseMeta
 INVARIANT JvmDelta
